@@ -322,9 +322,9 @@ class TaxBenefitSystem:
             extension_parameters = ParameterNode(directory_path=param_dir)
             # Forget the memoised views first: a merge that stops half-way has already changed the tree.
             TaxBenefitSystem.get_parameters_at_instant.cache_clear()
-            if self.baseline is not None and self.parameters is self.baseline.parameters:
-                # A reform shares its baseline's tree until it changes it: the
-                # baseline is not to be mutated.
+            if self.baseline is not None:
+                # A reform may share its tree with any system along its chain of
+                # baselines, or with other reforms of them: never merge in place.
                 self.parameters = copy.deepcopy(self.parameters)
                 self._parameters_at_instant_cache = {}
             self.parameters.merge(extension_parameters)
